@@ -46,6 +46,30 @@ fn main() {
         }
     };
     let seed: u64 = std::env::var("VERIF_SEED").ok().and_then(|s| s.parse().ok()).unwrap_or(0);
+    // hang watchdog: a single API call that runs longer than VERIF_HANG_MS (default 150 s) is non-termination.
+    // For C12 that is a violation of the property; for any other check the property cannot be decided: exit 2.
+    {
+        let prop = prop.clone();
+        let limit: u64 = std::env::var("VERIF_HANG_MS").ok().and_then(|s| s.parse().ok()).unwrap_or(150_000);
+        std::thread::spawn(move || loop {
+            std::thread::sleep(std::time::Duration::from_millis(1000));
+            if let Some((op, case, secs)) = api::hung_call(limit) {
+                let verif = fw::verif_dir();
+                let _ = std::fs::create_dir_all(format!("{}/replays", verif));
+                let path = format!("{}/replays/{}-hang-{}.json", verif, prop, op);
+                let body = serde_json::json!({"property": "C12", "key": format!("hang/{}", op), "what": format!("API call {} has not returned after {} s", op, secs), "case": case, "trace": []});
+                let _ = std::fs::write(&path, serde_json::to_vec_pretty(&body).unwrap());
+                if prop == "C12" {
+                    println!("VIOLATION property=C12 replay={}", path);
+                    println!("  key=hang/{} : API call {} has not returned after {} s; case: {}", op, op, secs, case);
+                    std::process::exit(1);
+                } else {
+                    eprintln!("machinery error: API call {} has not returned after {} s (non-termination is C12's business; {} cannot be decided); case: {}", op, secs, prop, case);
+                    std::process::exit(2);
+                }
+            }
+        });
+    }
     // a panic of the harness itself (not of opaque-ke: those are caught per API call) is a machinery error
     let code = match std::panic::catch_unwind(|| props::run(&prop, tier, seed)) {
         Ok(c) => c,
